@@ -57,6 +57,13 @@ SPECS = {
                             elementwise=False,
                             externals={'np.nanmax': ('nanmax', 'List PyFloat → Rat', ('List PyFloat',), 'Rat'),
                                        'np.nanmin': ('nanmin', 'List PyFloat → Rat', ('List PyFloat',), 'Rat')}),
+    'shift_and_scale': dict(file='scaler.py', params={'vals': 'List PyFloat', 'shift': 'Option Rat', 'scale': 'Rat', 'mode': 'String'},
+                            ret='List PyFloat', raises=True, elementwise=False,
+                            externals={'np.nanmax': ('nanmax', 'List PyFloat → Rat', ('List PyFloat',), 'Rat')}),
+    'minmax_scale': dict(file='scaler.py', params={'vals': 'List PyFloat', 'min_val': 'Option Rat', 'max_val': 'Option Rat', 'mode': 'String'},
+                         ret='List PyFloat', raises=True, elementwise=False,
+                         externals={'np.nanmax': ('nanmax', 'List PyFloat → Rat', ('List PyFloat',), 'Rat'),
+                                    'np.nanmin': ('nanmin', 'List PyFloat → Rat', ('List PyFloat',), 'Rat')}),
     '_ncd_or_nsc': dict(file='data.py', cls='CeiloChunk', params={}, attrs={'_clouds_above_msa_buffer': 'Bool'},
                         ret='String', raises=False, elementwise=False, lean_name='ncd_or_nsc'),
     # a method: `self.prms['KEY']` becomes the parameter KEY (the chunk's own parameter snapshot)
@@ -94,6 +101,8 @@ class Tr:
             return code
         if ty == 'Int' and want == 'PyFloat':
             return f'(F.ofInt {code})'
+        if ty == 'Rat' and want == 'PyFloat':
+            return f'(F.ofRat {code})'
         if ty == 'Int' and want == 'Rat':
             return f'(({code} : Int) : Rat)'
         if ty == 'Bool' and want == 'Int':
@@ -126,6 +135,8 @@ class Tr:
         if isinstance(n, ast.Name):
             if n.id not in env:
                 raise Unsupported(n, f'name {n.id} is not a local')
+            if env[n.id] == 'None':
+                return 'none', 'None'
             return n.id, env[n.id]
         if isinstance(n, ast.UnaryOp):
             c, t = self.expr(n.operand, env, binds)
@@ -234,6 +245,19 @@ class Tr:
         lc, lt = self.expr(n.left, env, binds)
         rc, rt = self.expr(n.right, env, binds)
         op = type(n.op)
+        if (lt == 'List PyFloat') != (rt == 'List PyFloat') and {lt, rt} - {'List PyFloat'} <= {'Int', 'Rat', 'PyFloat'} \
+                and op in (ast.Add, ast.Sub, ast.Mult, ast.Div):
+            # numpy broadcasting of a scalar over an array: element-wise map
+            f = {ast.Add: 'add', ast.Sub: 'sub', ast.Mult: 'mul', ast.Div: 'div'}[op]
+            if op is ast.Div:
+                val = const_value(n.right)
+                if lt != 'List PyFloat':
+                    raise Unsupported(n, 'scalar divided by an array')
+                if val is None or val == 0:
+                    f = 'divz'          # non-literal divisor: NaN where numpy gives +-inf / nan (division by zero)
+            if lt == 'List PyFloat':
+                return f'(List.map (fun v => F.{f} v {self.coerce(rc, rt, "PyFloat", n)}) {lc})', 'List PyFloat'
+            return f'(List.map (fun v => F.{f} {self.coerce(lc, lt, "PyFloat", n)} v) {rc})', 'List PyFloat'
         if lt.startswith('List') and rt.startswith('List') and op is ast.Add:
             t = lt if lt != 'List ?' else rt
             return f'({lc} ++ {rc})', t
@@ -242,8 +266,8 @@ class Tr:
         if lt == rt == 'Int' and op in (ast.Add, ast.Sub, ast.Mult):
             s = {ast.Add: '+', ast.Sub: '-', ast.Mult: '*'}[op]
             return f'({lc} {s} {rc})', 'Int'
-        if {lt, rt} <= {'Int', 'Rat'} and ('Rat' in (lt, rt) or op is ast.Div) and 'PyFloat' not in (lt, rt) \
-                and self.spec.get('rat_arith', 'Rat' in self.spec['params'].values() or 'List Rat' in self.spec['params'].values()):
+        if {lt, rt} <= {'Int', 'Rat'} and ('Rat' in (lt, rt) or (op is ast.Div and self.spec.get('rat_arith',
+                'Rat' in self.spec['params'].values() or 'List Rat' in self.spec['params'].values()))):
             if op is ast.Div:
                 val = const_value(n.right)
                 if val is None or val == 0:
@@ -392,6 +416,20 @@ class Tr:
             return f'(Except.error (AmpyErr.other "{cls}"))'
         if isinstance(s, (ast.Assign, ast.AnnAssign, ast.AugAssign)):
             return self.assign(s, rest, env, ind)
+        if isinstance(s, ast.If) and isinstance(s.test, ast.Compare) and len(s.test.ops) == 1 \
+                and isinstance(s.test.ops[0], (ast.Is, ast.IsNot)) and isinstance(s.test.left, ast.Name) \
+                and isinstance(s.test.comparators[0], ast.Constant) and s.test.comparators[0].value is None \
+                and env.get(s.test.left.id, '').startswith('Option '):
+            # `if x is None:` on an Optional local: a match that narrows the type of x in both branches
+            x = s.test.left.id
+            inner = env[x][len('Option '):]
+            env_none, env_some = dict(env), dict(env)
+            env_none[x] = 'None'
+            env_some[x] = inner
+            is_none = isinstance(s.test.ops[0], ast.Is)
+            a = self.block(list(s.body if is_none else s.orelse) + rest, env_none, ind + 1)
+            b = self.block(list(s.orelse if is_none else s.body) + rest, env_some, ind + 1)
+            return f'(match {x} with\n{pad}  | none =>\n{pad}    {a}\n{pad}  | some {x} =>\n{pad}    {b})'
         if isinstance(s, ast.If):
             binds = []
             c, t = self.expr(s.test, env, binds)
@@ -439,7 +477,7 @@ class Tr:
             vc, vt = self.expr(val, env, binds)
             vc = self.coerce(vc, vt, env[name], s)
             body = self.block(rest, env, ind)
-            return self.wrap(binds, f'let {name} : {env[name]} := if {mc} then {vc} else {name}\n{pad}{body}')
+            return self.wrap(binds, f'let {name} : {env[name]} := if {mc} then {vc} else {name};\n{pad}{body}')
         if not isinstance(tgt, ast.Name):
             raise Unsupported(s, 'assignment target')
         name = tgt.id
@@ -448,14 +486,14 @@ class Tr:
             ann = ann_type(s.annotation)
             if ann is not None:
                 vc, vt = self.coerce(vc, vt, ann, s), ann
-        if name in env and env[name] != vt:
+        if name in env and env[name] != vt and env[name] != 'None':
             vc, vt = self.coerce(vc, vt, env[name], s), env[name]
         if vt in ('List ?', 'None'):
             raise Unsupported(s, f'cannot infer the type of {name}')
         env = dict(env)
         env[name] = vt
         body = self.block(rest, env, ind)
-        return self.wrap(binds, f'let {name} : {vt} := {vc}\n{pad}{body}')
+        return self.wrap(binds, f'let {name} : {vt} := {vc};\n{pad}{body}')
 
     def forloop(self, s, rest, env, ind):
         pad = '  ' * ind
